@@ -82,9 +82,42 @@ func genC13Overlap(t *rapid.T) *Case {
 	return c
 }
 
+// extra property names a future handler table might know (unknown today: reject-all handler)
+var extraCSSProps = []string{"fill", "stroke", "caret-color", "accent-color", "scrollbar-color", "inset", "gap", "aspect-ratio", "text-underline-offset"}
+
+// genC13CSSAll: every default CSS handler registered globally and used concurrently with many
+// different properties: handlers must not write package-level state.
+func genC13CSSAll(t *rapid.T) *Case {
+	all := append(append([]string{}, cssProps...), extraCSSProps...)
+	spec := &Spec{Base: "New", Ops: []Op{
+		{Kind: "AllowAttrs", Attrs: []string{"style", "id"}, ValRe: -1, Scope: "els", Names: []string{"p", "span"}},
+		{Kind: "AllowStyles", Attrs: all, ValRe: -1, Scope: "global"}}}
+	c := &Case{Spec: spec, Kind: "css-all"}
+	k := rapid.IntRange(8, 12).Draw(t, "ninputs")
+	for i := 0; i < k; i++ {
+		var ds []string
+		for j := rapid.IntRange(1, 4).Draw(t, "nd"); j > 0; j-- {
+			prop := rapid.SampledFrom(all).Draw(t, "cssprop")
+			if rapid.IntRange(0, 3).Draw(t, "colorish") == 0 {
+				prop = rapid.SampledFrom([]string{"color", "caret-color", "fill", "stroke", "background-color", "border-color", "outline-color"}).Draw(t, "colorprop")
+			}
+			val := rapid.SampledFrom(cssTokens).Draw(t, "csstok")
+			if rapid.Bool().Draw(t, "two") {
+				val += " " + rapid.SampledFrom(cssTokens).Draw(t, "csstok2")
+			}
+			ds = append(ds, prop+": "+val)
+		}
+		c.Inputs = append(c.Inputs, BStr(`<p id="i" style="`+escAttr(strings.Join(ds, "; "), '"')+`">t</p>`))
+	}
+	return c
+}
+
 func genC13(t *rapid.T) *Case {
-	if rapid.IntRange(0, 2).Draw(t, "overlapCase") == 0 {
+	switch rapid.IntRange(0, 5).Draw(t, "overlapCase") {
+	case 0, 1:
 		return genC13Overlap(t)
+	case 2:
+		return genC13CSSAll(t)
 	}
 	spec := genSpec(t, &SpecOpts{Kinds: c13Kinds, MinOps: 3, MaxOps: 14})
 	m := BuildModel(spec)
